@@ -92,6 +92,21 @@ CLAIMS.update({
             'included); every call in the lemma is resolved against the callee\'s contract, and the callees\' own '
             'obligations (tagged C06) tie it to the real bodies. The concatenation laws used as SMT axioms are theorems of '
             'lemmas/lean/SeqLaws.lean (Lean 4 / Mathlib, re-checked by the thorough tier).' + SCOPE, '12.1, 7 C06'),
+    'C11': ('Contracts on approximate.py: get_context_hash is proved (loop invariant) to return for every row the binary '
+            'code sum_t 2^t [x . plane_t > 0] of its sign pattern (strict test, right power); _add_neighbors appends to bucket '
+            '(k, h) exactly the positions of the value h in the batch\'s hashes, offset by the number of rows stored before, '
+            'and leaves every other bucket alone; _get_neighbors returns exactly the union over the tables of the buckets of '
+            'the query\'s codes (loop invariant over a recursive collision predicate) with all indices in range; fit / '
+            'partial_fit keep the table invariant "bucket (k, h) lists the stored rows whose hash under plane k is h" '
+            '(partial_fit: same planes, offset = rows stored before the call; law where.hashes.vstack proved in Lean); '
+            '_predict_contexts answers row j from exactly the de-duplicated collision set with a private, freshly seeded '
+            'policy copy, NaN / the configured distribution when it is empty. NOT proved: the contracts of _initialize '
+            '(one generator draw per table, tables emptied) and _fit_operation (joblib maps over chunks and over '
+            'np.unique(hashes) into nested dictionaries) are ASSUMED - their loops are outside PyVC\'s reach - and '
+            'exercised only by the bounded leg, which recomputes the collision sets from the bandit\'s own planes for '
+            'stored rows, positive multiples and fresh queries (n_jobs 1 and 2, fit + partial_fit). Consequences in the '
+            'statement (a positive multiple of a stored row collides with it) are checked by the bounded leg only.',
+            '12.2, 12.6, 7 C11'),
     'C19': ('Repository side only, as DESIGN 7 C19 says: obligations copy.hooks and attr.universe.static on the AST of '
             'every class of the package (no __getstate__/__reduce__/__deepcopy__/__slots__; no store through self of a '
             'lambda, generator expression, local function, open(), iter(), id()), attr.universe on every explored path of '
@@ -106,12 +121,6 @@ CLAIMS.update({
             'radius *set*); KNearest and Clusters are excluded by the statement.' + SCOPE, '12.1, 7 C20'),
 })
 BOUNDED = {
-    'C11': ('No contract on approximate.py is within reach of the prover (int- and float-keyed hash tables, 2**i; DESIGN.md '
-            '12.6). Bounded stand-in: for LSHNearest over EpsilonGreedy(0), UCB1 and LinGreedy(0), n_dimensions / n_tables in '
-            '{(3,2),(1,1),(4,3)}, n_jobs in {1,2}, histories fit + partial_fit*, the neighbourhood of every query (grid '
-            'points, stored rows, positive multiples of stored rows) is recomputed from the bandit\'s own hyperplanes as '
-            'the set of stored rows sharing the sign pattern in at least one table, and the returned expectations are '
-            'compared with the learning policy trained on exactly that set (NaN when empty).', '12.2, 12.6'),
     'C12': ('No contract on clusters.py / treebandit.py is within reach (symbolic number of policy objects, estimators as '
             'state). Bounded stand-in: the expectations of Clusters (KMeans and MiniBatchKMeans) are compared with the '
             'learning policy trained on exactly the stored rows in the query\'s cell as computed by the fitted estimator; '
